@@ -266,7 +266,9 @@ def parse_log(text):
             elif t.startswith("];"):
                 in_vals = False
                 playbacks.append({"kind": kind, "desc": desc, "vals": vals})
-    failing = [p for p in playbacks if p["kind"] != "cover"]
+    # failed checks first; Kani sometimes prints only the test of a satisfied cover although an assertion failed on the same
+    # values (seen on the short-write harnesses), so cover tests are kept as further candidates
+    failing = [p for p in playbacks if p["kind"] != "cover"] + [p for p in playbacks if p["kind"] == "cover"]
     res["playbacks"] = failing
     res["concrete_vals"] = failing[0]["vals"] if failing else None
     return res
